@@ -17,7 +17,7 @@ func init() { Registry["C08"] = c08 }
 // allowedRelayWrites: the only modifications a relay may make to a frame it received.
 
 func c08(p *core.Prog, r *core.Report) {
-	r.Explain = "Decides: (R1) a relay forwards received frames unmodified except for the message id, the clamped time-to-live and the re-stamped checksum: the census of every store into a header field or payload byte of a frame that did not come fresh from the pool, over the relay's synchronous call tree, equals that allowed set; (R2) id remapping: the destination id is the destination connection's next message id, the two relay items map destination id -> original id on the destination relayer and original id -> destination id on the source relayer, the frame is stamped with the destination id before it is handed over, and later frames are stamped with the item's remap id; (R3) the ttl is only lowered (shared with C14); (R4) the lazy parsers read the call req / call res frames with exactly the field widths of the specification (flattened layout comparison) and the offset constants equal the specified sums; (R5) arg2 append: count = original count + number of appended pairs, then the original pairs verbatim, then the appended pairs in order, arg1 copied and arg3 written from the original frame, only for the thrift scheme with unfragmented arg2; (R6) frames of one call are forwarded in arrival order by the source connection's single reader (shared with C04). An item is failed/finished in its lookup table under the pre-remap id; (R6) no frame of an ended call is forwarded and an admission error frame is terminal (shared with C10-R3). (R3) the ttl is clamped on every forwarding path (shared with C14); (R7) pooled per-call objects carry nothing over (shared with C04). (R8) relay table invariants (shared with C09). Relay-originated error frames carry the id of the item's own connection, never the remapped id (shared with C10-R4). The checksum size table (stepped over by the lazy parser) includes farmhash; the pending count is balanced (shared with C09-R3)."
+	r.Explain = "Decides: (R1) a relay forwards received frames unmodified except for the message id, the clamped time-to-live and the re-stamped checksum: the census of every store into a header field or payload byte of a frame that did not come fresh from the pool, over the relay's synchronous call tree, equals that allowed set; (R2) id remapping: the destination id is the destination connection's next message id, the two relay items map destination id -> original id on the destination relayer and original id -> destination id on the source relayer, the frame is stamped with the destination id before it is handed over, and later frames are stamped with the item's remap id; (R3) the ttl is only lowered (shared with C14); (R4) the lazy parsers read the call req / call res frames with exactly the field widths of the specification (flattened layout comparison) and the offset constants equal the specified sums; (R5) arg2 append: count = original count + number of appended pairs, then the original pairs verbatim, then the appended pairs in order, arg1 copied and arg3 written from the original frame, only for the thrift scheme with unfragmented arg2; (R6) frames of one call are forwarded in arrival order by the source connection's single reader (shared with C04). An item is failed/finished in its lookup table under the pre-remap id; (R6) no frame of an ended call is forwarded and an admission error frame is terminal (shared with C10-R3). (R3) the ttl is clamped on every forwarding path (shared with C14); (R7) pooled per-call objects carry nothing over (shared with C04). (R8) relay table invariants (shared with C09). Relay-originated error frames carry the id of the item's own connection, never the remapped id (shared with C10-R4). The checksum size table (stepped over by the lazy parser) includes farmhash; the pending count is balanced (shared with C09-R3). The fragments rebuilt for an arg2 append carry the caller's flags byte itself."
 	r.NotDecided = "end-to-end equality with a direct call for all argument shapes; re-fragmentation boundaries above 64 KiB (the writer used is covered by C01/C02)."
 	r.Rule("C08-R1", "E6 who-may-write", 4, "received frames are forwarded unmodified except id / ttl / checksum")
 	r.Rule("C08-R2", "E6 provenance", 5, "message id remapping")
